@@ -439,3 +439,13 @@ def run(ck, prog):
 
 
 EXPLANATION += (' Weighted sweep: all update sites of one running total in find_best_split add the same weighted term (E1-sibling) - bootstrap multiplicities enter the skip branches as well.')
+
+
+# ------------------------------------------------------------------ generic: signed counters are not cast to unsigned on their negative side
+_run_pre_negcast = run
+
+
+def run(ck, prog):
+    _run_pre_negcast(ck, prog)
+    from sa import negcast
+    negcast.run_rule(ck, prog, set(DIMENSION_FILES))
